@@ -5,10 +5,12 @@
   Ed25519 private keys whose public and private parts disagree"; ECDSA: scalar range + d·G = Pub),
   checkOpenSSHKeyPadding / generateOpenSSHPadding, marshalOpenSSHPrivateKey.
 
+  Modelled: the code after the fixes e406b17 (Ed25519 Pub / Priv[32:] / seed must agree), 9cae9ca
+  (`checkPub`: the public key blob stored outside the private section must be the marshalled public key
+  of the parsed key, every key type) and 4d7287a (ECDSA scalar must satisfy 0 < D < N).
+
   Oracles (stdlib / C19): the decrypted private block (bcrypt_pbkdf + AES-CTR/CBC), rsa.Validate,
   ed25519.NewKeyFromSeed, elliptic ScalarBaseMult and point validation.
-  NOTE the code never looks at the outer public key blob `w.PubKey` except to fill
-  PassphraseMissingError; `specAccept` below adds the comparison the property asks for.
 -/
 import XC.Model.C41
 namespace XC.C39
@@ -65,8 +67,12 @@ def curveOrder : Nat → Nat
   | 521 => 0x1fffffffffffffffffffffffffffffffffffffffffffffffffffffffffffffffffa51868783bf2f966b7fcc0148f709a5d03bb5c9b8899c47aebb6fb71e91386409
   | _ => 0
 
+/-- `checkPub(priv, pub)`: `NewPublicKey(pub).Marshal()` must equal the outer blob `w.PubKey` -/
+def checkPub (outer : Bytes) (k : PrivKey) (comment : Bytes) : Res :=
+  if k.pub.marshal ≠ outer then .err else .ok k comment
+
 /-- the RSA private section after `Unmarshal(pk1.Rest, &key)` -/
-def parseRSAPriv (o : Oracles) (b : Bytes) : Res :=
+def parseRSAPriv (o : Oracles) (outer : Bytes) (b : Bytes) : Res :=
   if b.isEmpty then .err else
   match parseMpint b with
   | none => .err
@@ -97,9 +103,9 @@ def parseRSAPriv (o : Oracles) (b : Bytes) : Res :=
     else match o.rsaValid with
       | none => .oracleMiss
       | some false => .err
-      | some true => .ok (.rsa n e d iqmp p q) comment
+      | some true => checkPub outer (.rsa n e d iqmp p q) comment
 
-def parseEdPriv (o : Oracles) (b : Bytes) : Res :=
+def parseEdPriv (o : Oracles) (outer : Bytes) (b : Bytes) : Res :=
   if b.isEmpty then .err else
   match parseString b with
   | none => .err
@@ -117,9 +123,9 @@ def parseEdPriv (o : Oracles) (b : Bytes) : Res :=
       | some derived =>
         -- !bytes.Equal(pk, key.Priv) || !bytes.Equal(key.Pub, key.Priv[32:])
         if derived ≠ priv.drop 32 ∨ pub ≠ priv.drop 32 then .err
-        else .ok (.ed25519 priv) comment
+        else checkPub outer (.ed25519 priv) comment
 
-def parseECPriv (o : Oracles) (b : Bytes) : Res :=
+def parseECPriv (o : Oracles) (outer : Bytes) (b : Bytes) : Res :=
   if b.isEmpty then .err else
   match parseString b with
   | none => .err
@@ -138,13 +144,13 @@ def parseECPriv (o : Oracles) (b : Bytes) : Res :=
     | none => .err
     | some bits =>
       if !o.pt bits pub then .err
-      else if d ≥ (curveOrder bits : Int) then .err
+      else if d ≤ 0 ∨ d ≥ (curveOrder bits : Int) then .err
       else match o.ecPub with
         | none => .oracleMiss
-        | some derived => if derived ≠ pub then .err else .ok (.ecdsa bits pub d) comment
+        | some derived => if derived ≠ pub then .err else checkPub outer (.ecdsa bits pub d) comment
 
 /-- the decrypted private block: check1 = check2, key type, per-type section -/
-def parsePrivBlock (o : Oracles) (encrypted : Bool) (blk : Bytes) : Res :=
+def parsePrivBlock (o : Oracles) (outer : Bytes) (encrypted : Bool) (blk : Bytes) : Res :=
   let bad : Res := if encrypted then .badPass else .err
   if blk.isEmpty then bad else
   match parseU32 blk with
@@ -157,9 +163,9 @@ def parsePrivBlock (o : Oracles) (encrypted : Bool) (blk : Bytes) : Res :=
   | none => bad
   | some (keytype, rest) =>
     if c1 ≠ c2 then bad
-    else if keytype = algoRSA then parseRSAPriv o rest
-    else if keytype = algoED25519 then parseEdPriv o rest
-    else if keytype = algoECDSA256 ∨ keytype = algoECDSA384 ∨ keytype = algoECDSA521 then parseECPriv o rest
+    else if keytype = algoRSA then parseRSAPriv o outer rest
+    else if keytype = algoED25519 then parseEdPriv o outer rest
+    else if keytype = algoECDSA256 ∨ keytype = algoECDSA384 ∨ keytype = algoECDSA521 then parseECPriv o outer rest
     else .err
 
 structure Container where
@@ -207,7 +213,7 @@ def parsePlain (o : Oracles) (key : Bytes) : Res :=
        | none => .err
        | some k => match k.marshal with | some m => .needPass m | none => .err)
     else if !w.kdfOpts.isEmpty then .err
-    else parsePrivBlock o false w.privBlock
+    else parsePrivBlock o w.pubKey false w.privBlock
 
 /-- `parseOpenSSHPrivateKey(key, passphraseProtectedOpenSSHKey(passphrase))` -/
 def parseWithPass (o : Oracles) (key : Bytes) : Res :=
@@ -235,29 +241,9 @@ def parseWithPass (o : Oracles) (key : Bytes) : Res :=
             | none => .oracleMiss
             | some none => .err                   -- bcrypt_pbkdf.Key error (rounds 0, empty salt, empty passphrase)
             | some (some plain) =>
-              if ctr then parsePrivBlock o true plain
-              else if cbc then (if w.privBlock.length % 16 ≠ 0 then .err else parsePrivBlock o true plain)
+              if ctr then parsePrivBlock o w.pubKey true plain
+              else if cbc then (if w.privBlock.length % 16 ≠ 0 then .err else parsePrivBlock o w.pubKey true plain)
               else .err
-
-/-- a private scalar a signer can use: ecdsa.Sign refuses `D ≤ 0` ("private key scalar is zero or
-    negative"); the other kinds are covered by their consistency checks -/
-def usable : PrivKey → Bool
-  | .ecdsa _ _ d => decide (0 < d)
-  | _ => true
-
-/-- The property's clauses the code does not enforce: the public key of the accepted key equals the
-    one stored in the file's public section, and the key can actually sign. -/
-def specAccept (o : Oracles) (key : Bytes) (r : Res) : Res :=
-  match r with
-  | .ok k c =>
-    if !usable k then .err else
-    (match parseContainer key with
-     | some w =>
-       (match parsePublicKey o.pt w.pubKey with
-        | some outer => if outer.marshal = some k.pub.marshal then .ok k c else .err
-        | none => .err)
-     | none => .err)
-  | x => x
 
 /-! ## marshalOpenSSHPrivateKey -/
 
